@@ -130,6 +130,7 @@ def Body(
     d2: ty.Any = None,
     d3: ty.Any = None,
     emit: ty.Any = None,
+    arr: ty.Any = None,  # carried only: a multi-element numpy array, whose `!=` with the default is not a bool (D74)
 ) -> ty.Any:
     from harness.engines.sched_worker import body
 
@@ -148,6 +149,7 @@ def BodyT(
     d2: list | None = None,
     d3: list | None = None,
     emit: int | None = None,
+    arr: ty.Any = None,
 ) -> list:
     """the same body with typed connections (C18: typed back edges)"""
     from harness.engines.sched_worker import body
